@@ -165,6 +165,12 @@ impl EventLoop {
             // Last session might contain packets which aren't acked. If it's a new session, clear the pending packets.
             if !connack.session_present {
                 self.pending.clear();
+                // the new session starts clean: nothing is in flight any more, so packet ids are
+                // allocated from 1 again. Carrying `last_pkid` over while `last_puback` still
+                // names an ack of the old session would make MqttState::clean() rotate at the
+                // wrong id and retransmit out of order after the next failure
+                self.state.last_pkid = 0;
+                self.state.last_puback = 0;
             }
             self.network = Some(network);
 
